@@ -356,16 +356,21 @@ def zombie_profile(rng, rec):
         else:
             rest = [k for k in range(K) if k not in keys] or keys
             seq.append({"id": nid + 1 + j, "op": "GET", "keys": rng.sample(rest, min(len(rest), rng.randint(1, 3))), "dt": dt})
-    if rng.random() < 0.5:
+    if rng.random() < 0.65:
         # the zombie's own late attempt fails: a fault planned for a key of its chunk in a LATER operation in
         # which the caller only hits (or does not request) that key, so only the zombie can consume it
         zk = rng.choice(keys[5:] or keys)
         zid = nid + 20
         others = [k for k in keys if k != zk]
-        seq.append({"id": zid, "op": "GET", "keys": rng.sample(others, min(len(others), rng.randint(1, 3))), "dt": 0})
         zkinds = [k for k in fault_kinds_for(knobs["keys"][zk]) if k not in ("SHORT_WRITE", "EMFILE")]
-        rec["faults"].append(dict(make_fault(rng, zid, rng.choice(zkinds), zk), persist=False))
-        seq.append({"id": zid + 1, "op": "GET", "keys": [zk], "dt": 0})
+        late = [k for k in zkinds if k in ("ERR_MID", "ERR_AFTER", "RET_FALSE_MID", "NOTFOUND_MID", "EIO", "ENOSPC", "RENAME_EIO",
+                                         "PP_ERR_MID", "PP_ERR_AFTER")]
+        zkind = rng.choice(late) if (late and rng.random() < 0.7) else rng.choice(zkinds)
+        for j in range(rng.randint(1, 4)):
+            # several operations that do not fetch zk themselves: whichever of them the zombie reaches zk in
+            seq.append({"id": zid + j, "op": "GET", "keys": rng.sample(others, min(len(others), rng.randint(1, 3))), "dt": 0})
+            rec["faults"].append(dict(make_fault(rng, zid + j, zkind, zk), persist=False))
+        seq.append({"id": zid + 9, "op": "GET", "keys": [zk], "dt": 0})
         knobs["sched"] = {"policy": "straggler", "q": rng.choice([0.02, 0.1, 0.3])}
     rec["ops"] = ops[:pos] + seq + ops[pos:]
     rec["faults"].append(make_fault(rng, nid, kind, fk))
@@ -399,7 +404,7 @@ def generate(prop, seed, profile=None):
     rng = random.Random(mix(seed, "gen", prop))
     if prop == "C18" and "duplicates" not in profile and rng.random() < 0.05:
         profile = dict(profile, duplicates=True, big_requests=True, parallel=True)
-    if prop == "C19" and "zombie" not in profile and not profile.get("fault_free") and rng.random() < 0.15:
+    if prop == "C19" and "zombie" not in profile and not profile.get("fault_free") and rng.random() < 0.22:
         profile = dict(profile, zombie=True, big_requests=True, parallel=True)
     knobs = gen_knobs(rng, prop, profile)
     ops = gen_ops(rng, prop, knobs, profile)
